@@ -66,6 +66,9 @@ type OpRecord struct {
 	cancel context.CancelFunc
 	yields int
 
+	storeCalls   map[string]int // per method, for faults addressed to this request
+	storeFaulted bool           // such a fault fired
+
 	balSnap   map[string]*big.Int
 	balReads  map[string]bool
 	balStep   int
@@ -200,6 +203,22 @@ func (s *Sim) storeFault(ledgerName, method string, nth int) int {
 	return s.sfaults[fmt.Sprintf("%s/%s/%d", ledgerName, method, nth)]
 }
 
+// opStoreFault: faults addressed to one request (StoreFail.OpTag).
+func (s *Sim) opStoreFault(op *OpRecord, method string) int {
+	if op == nil {
+		return 0
+	}
+	if op.storeCalls == nil {
+		op.storeCalls = map[string]int{}
+	}
+	op.storeCalls[method]++
+	m := s.sfaults[fmt.Sprintf("op:%s/%s/%d", op.Name, method, op.storeCalls[method])]
+	if m != 0 {
+		op.storeFaulted = true
+	}
+	return m
+}
+
 func ledgerName(i int) string { return fmt.Sprintf("L%d", i) }
 
 // mandatorySites can never be switched off: several goroutines may be woken by
@@ -250,6 +269,12 @@ func newSim(in *Input, target string, maxSteps int) *Sim {
 		}
 	}
 	for _, f := range in.SFaults {
+		if f.OpTag != "" {
+			if f.Nth > 0 {
+				s.sfaults[fmt.Sprintf("op:%s/%s/%d", f.OpTag, f.Method, f.Nth)] = f.Mode
+			}
+			continue
+		}
 		if f.Ledger >= 0 && f.Ledger < nl && f.Nth > 0 {
 			s.sfaults[fmt.Sprintf("%s/%s/%d", ledgerName(f.Ledger), f.Method, f.Nth)] = f.Mode
 		}
@@ -647,7 +672,11 @@ func (s *Sim) kill(g *Generation, crashed bool) {
 			if li.runnerDead {
 				continue
 			}
-			li.commander.Close()
+			// clean-up only (stops the runner and its worker pool). Not on the scheduler's own
+			// goroutine: the runner loop of a dead process may itself be stopped for good (a zombie
+			// of the fine-grained binary that met a taken mutex), and Close would wait for it for ever.
+			c := li.commander
+			go c.Close()
 		}
 	}
 	quiesce()
@@ -725,8 +754,11 @@ func (s *Sim) applyFault(f Fault, ps []*Task) bool {
 		s.classifyCrashWindow(ps)
 		s.spawnShutdown(g)
 		return true
-	case "clock":
+	case "clock", "clockns":
 		d := time.Duration(f.Arg) * time.Microsecond
+		if f.Kind == "clockns" {
+			d = time.Duration(f.Arg)
+		}
 		if d <= 0 {
 			return true
 		}
@@ -1067,6 +1099,9 @@ func (s *Sim) execOp(ctx context.Context, rec *OpRecord, li *ledgerInst) {
 		}
 		if op.Value != "" {
 			rs.Metadata["m"] = op.Value
+		}
+		if op.MetaKey != "" {
+			rs.Metadata[op.MetaKey] = "request"
 		}
 		rec.Script = cloneScript(&rs)
 		rec.Tx, rec.Err = li.commander.CreateTransaction(ctx, params, rs)
